@@ -1720,7 +1720,7 @@ func runCase(rt *rapid.T, c *vk.Case, ext bool) {
 }
 
 func TestHistoryImmutable(t *testing.T) {
-	vk.Check(t, 400, 8000, func(rt *rapid.T, c *vk.Case) {
+	vk.Check(t, 400, 6000, func(rt *rapid.T, c *vk.Case) {
 		runCase(rt, c, false)
 	})
 }
